@@ -226,6 +226,20 @@ def comp_cases(ctx, rnd, n):
         form = rnd.choice([f"lambda e: [hl{hi}({v}, {v}.pt) for {v} in e.jets]", f"lambda e: e.jets.Select(lambda {v}: hl{hi}({v}, {v}.eta + e.met))", f"lambda e: [(lambda w: hl{hi}(w, {v}.x))({v}) for {v} in e.jets]"])
         batch.append((form, {"let-style-helper-with-comprehension"}))
         helpers.append(f"hl{hi}")
+    # two levels: a helper whose parameter (often) carries the name of the loop variable of a comprehension one scope further in -
+    # inside a second helper, a second called lambda, an operator lambda
+    for hi in range(2):
+        tv = rnd.choice(["j", "q", "t"])
+        hp = tv if rnd.random() < 0.7 else rnd.choice(["j", "q", "t", "a"])
+        hsrc += f"def ht{hi}(trks, k): return [{tv}.pt * k for {tv} in trks if {tv}.x >= 0]\n"
+        hsrc += f"def ho{hi}({hp}): return ht{hi}({hp}.trks, {hi + 2})\n"
+        helpers += [f"ht{hi}", f"ho{hi}"]
+        v = rnd.choice(["j", "q", "t", "x"])
+        form = rnd.choice([f"lambda e: ho{hi}(e.jets[0])", f"lambda e: e.jets.Select(lambda {v}: ho{hi}({v}))", f"lambda e: [ho{hi}({v}) for {v} in e.jets]",
+                           f"lambda e: e.jets.Select(lambda x: (lambda {hp}: (lambda ts: [{tv}.pt + x.pt for {tv} in ts])({hp}.trks))(x))",
+                           f"lambda e: (lambda {hp}: e.jets.Select(lambda w: [{tv}.pt + w.pt + {hp}.pt * 0 for {tv} in w.trks]))(e.jets[0])" if hp != tv else
+                           f"lambda e: (lambda {hp}: e.jets.Select(lambda w: [{tv}.pt + w.pt for {tv} in w.trks]))(e.jets[0])"])
+        batch.append((form, {"comprehension-two-scopes-below-a-parameter-of-its-loop-variable's-name" if hp == tv else "two-level-helper-with-comprehension"}))
     for hi, hname in enumerate(helpers[:3]):
         v = rnd.choice(["j", "q", "jet", "t"])
         form = rnd.choice([f"lambda e: [{hname}({v}) for {v} in e.jets]", f"lambda e: e.jets.Select(lambda {v}: {hname}({v}))", f"lambda e: [({v}.pt, {hname}({v})) for {v} in e.jets if len({hname}({v})) >= 0]", f"lambda e: {hname}(e.jets[0])"])
@@ -321,6 +335,14 @@ def make_class(rnd, i):
             fields.insert(pos, iv)
             cls = dataclasses.make_dataclass(f"DC{i}", fields)
             return cls, names[:pos] + ["scale_"] + names[pos:], ndef + (1 if len(iv) == 3 else 0), "dataclass-initvar"
+        if 0.55 <= flavour < 0.75 and nf >= 2:
+            # a record class deriving from another record class and adding fields; the base is used in a query of its own first
+            # (or afterwards): what is known about one class of a family is not what is true of the other
+            k = rnd.randint(1, nf - 1)
+            base = dataclasses.make_dataclass(f"DCBase{i}", fields[:k])
+            cls = dataclasses.make_dataclass(f"DC{i}", fields[k:], bases=(base,))
+            cls._verif_relative = base
+            return cls, names, ndef, "dataclass-derived"
         cls = dataclasses.make_dataclass(f"DC{i}", fields)
         if 0.25 <= flavour < 0.4 and nf >= 2:
             # keyword-only field declared first: signature order differs from field order
@@ -352,6 +374,19 @@ def ctor_case(ctx, rnd, i):
     from func_adl.ast.syntatic_sugar import resolve_syntatic_sugar
 
     cls, names, ndef, kind = make_class(rnd, i)
+    rel = getattr(cls, "_verif_relative", None)
+    if rel is not None:
+        # history: the other class of the family goes through the lowering first (half of the time: the derived one first)
+        first, second = (rel, cls) if rnd.random() < 0.6 else (cls, rel)
+        try:
+            n_req = sum(1 for p_ in inspect.signature(first).parameters.values() if p_.default is p_.empty)
+            resolve_syntatic_sugar(astx.lam(["e"], ast.Call(func=ast.Constant(value=first), args=[astx.parse_expr(f"e.w{j}") for j in range(n_req)], keywords=[])))
+        except ValueError:
+            pass
+        ctx.count("ctor-family-history:" + ("base-first" if first is rel else "derived-first"))
+        if second is rel:
+            cls, names = rel, [f.name for f in dataclasses.fields(rel)]
+            ndef = sum(1 for f in dataclasses.fields(rel) if f.default is not dataclasses.MISSING)
     kwonly = None
     if kind.startswith("dataclass-kwonly:"):
         kwonly = kind.split(":")[1]
